@@ -99,8 +99,131 @@ func runC12(c *Ctx) {
 	c04Literal(c, "C12.literal-path")
 	c12IdentAfter(c, ns)
 	c12Diagnostics(c, ns)
-	c12Stripped(c, ns)
+	c12Stripped(c, ns, "C12.separator-stripped")
 	c12TokenOrigin(c, ns)
+	c12SeparatorFlag(c, ns)
+	c12DigitClass(c, ns)
+}
+
+// c12SeparatorFlag: "this literal contained a separator" is a bit the fragment scanner ORs into the token flags and the
+// number scanner tests to choose between the assembled (separator-free) text and the raw source range. The bit set by
+// the fragment scanner must be the bit tested, and nothing in between may overwrite the flags (only OR-ing is allowed).
+func c12SeparatorFlag(c *Ctx, ns *numberScanner) {
+	const rule = "C12.separator-flag"
+	orConst := func(v ssa.Value) (int64, bool) {
+		bo, ok := v.(*ssa.BinOp)
+		if !ok || bo.Op != token.OR {
+			return 0, false
+		}
+		for _, pr := range [][2]ssa.Value{{bo.X, bo.Y}, {bo.Y, bo.X}} {
+			u, isU := pr[0].(*ssa.UnOp)
+			if !isU || !isScannerField(u.X, "tokenFlags") {
+				continue
+			}
+			if n, ok := constIntArg(pr[1]); ok {
+				return n, true
+			}
+		}
+		return 0, false
+	}
+	ch, _ := decodedRune(ns.Frag)
+	sepArm := runeSwitchArms(ns.Frag, ch)['_']
+	var setBit int64 = -1
+	if sepArm != nil {
+		for _, b := range ns.Frag.Blocks {
+			if !(b == sepArm || sepArm.Dominates(b)) {
+				continue
+			}
+			for _, in := range b.Instrs {
+				if st, ok := in.(*ssa.Store); ok && isScannerField(st.Addr, "tokenFlags") {
+					if n, ok := orConst(st.Val); ok {
+						setBit = n
+					}
+				}
+			}
+		}
+	}
+	if setBit < 0 {
+		// no flag protocol: the number scanner must then always use the assembled fragments; c12Stripped decides that
+		c.R.Add(rule, "protocol", c.P.Pos(ns.Frag.Pos()), OK, "")
+		return
+	}
+	// the test in the number scanner
+	tested := false
+	instrs(ns.Num, func(b *ssa.BasicBlock, i int, in ssa.Instruction) {
+		bo, ok := in.(*ssa.BinOp)
+		if !ok || bo.Op != token.AND {
+			return
+		}
+		u, isU := bo.X.(*ssa.UnOp)
+		if !isU || !isScannerField(u.X, "tokenFlags") {
+			return
+		}
+		if n, ok := constIntArg(bo.Y); ok && n == setBit {
+			tested = true
+		}
+	})
+	c.R.Check(rule, "bit-set-is-bit-tested", c.P.Pos(ns.Num.Pos()), tested, fmt.Sprintf("the fragment scanner marks a separator with flag bit %#x; the number scanner must test that same bit when it chooses between the assembled text and the raw source range", setBit))
+	// no overwrite between the first fragment and the test
+	rr := c.P.Reach([]*ssa.Function{ns.Num}, c.inModule, nil)
+	n := 0
+	for _, f := range rr.Order {
+		per := 0
+		instrs(f, func(b *ssa.BasicBlock, i int, in ssa.Instruction) {
+			st, ok := in.(*ssa.Store)
+			if !ok || !isScannerField(st.Addr, "tokenFlags") {
+				return
+			}
+			n++
+			per++
+			_, isOr := orConst(st.Val)
+			c.R.Check(rule, fmt.Sprintf("flag-writer:%s#%d", c.P.FuncKey(f), per), c.P.InstrPos(in), isOr, "while a number is scanned the token flags may only gain bits (flags |= bit); this store overwrites them, so the separator bit set by an earlier fragment is lost and the raw text - underscores included - becomes the number text (`1_000e3` then reads as NaN)")
+		})
+	}
+	c.R.Analysed["number_flag_writers"] = n
+	c.R.Floor(rule, 3)
+}
+
+// c12DigitClass: the digit test used by the fragment scanner accepts exactly '0'..'9' (truth table over ASCII and
+// sampled non-ASCII decimal digits): a Unicode digit such as U+0663 is not part of a decimal literal the evaluator can read.
+func c12DigitClass(c *Ctx, ns *numberScanner) {
+	const rule = "C12.digit-class"
+	ch, _ := decodedRune(ns.Frag)
+	var pred *ssa.Function
+	instrs(ns.Frag, func(b *ssa.BasicBlock, i int, in ssa.Instruction) {
+		call, ok := in.(*ssa.Call)
+		if !ok || len(call.Call.Args) != 1 || call.Call.Args[0] != ch {
+			return
+		}
+		if cal := calleeOf(call); cal != nil && c.inModule(cal) && isBoolType(call.Type()) {
+			pred = cal
+		}
+	})
+	if pred == nil {
+		c.R.Add(rule, "digit-test", c.P.Pos(ns.Frag.Pos()), OK, "")
+		return
+	}
+	samples := []int64{}
+	for r := int64(0); r < 128; r++ {
+		samples = append(samples, r)
+	}
+	samples = append(samples, 0xB2, 0xB9, 0x660, 0x663, 0x6F0, 0x966, 0x9E6, 0xE50, 0xFF10, 0xFF19, 0x1D7CE, 0x2028, 0xFFFD)
+	bad := ""
+	fold := &Folder{P: c.P, MaxDepth: 2}
+	for _, r := range samples {
+		res := fold.Fold(pred, []LV{intLV(r)})
+		v, ok := boolResult(res, 0)
+		want := r >= '0' && r <= '9'
+		if !ok {
+			bad = fmt.Sprintf("U+%04X: not decidable (the test calls out of the module)", r)
+			break
+		}
+		if v != want {
+			bad = fmt.Sprintf("U+%04X: %v, expected %v", r, v, want)
+			break
+		}
+	}
+	c.R.Check(rule, c.P.FuncKey(pred), c.P.Pos(pred.Pos()), bad == "", "the digit class of a decimal literal must be exactly '0'..'9'; "+bad+": other Unicode digits would become part of a number token whose text the evaluator cannot read")
 }
 
 func c12IdentAfter(c *Ctx, ns *numberScanner) {
@@ -337,8 +460,7 @@ func pinLoopEntered(h *ssa.BasicBlock) Pin {
 	}
 }
 
-func c12Stripped(c *Ctx, ns *numberScanner) {
-	const rule = "C12.separator-stripped"
+func c12Stripped(c *Ctx, ns *numberScanner, rule string) {
 	f := ns.Frag
 	h := ns.FragLoop.Header
 	ch, _ := decodedRune(f)
@@ -539,6 +661,7 @@ func runC15(c *Ctx) {
 	c.R.Check("C15.rejection-by-diagnostic", "end-of-input check", c.P.Pos(ro.Worker.Pos()), kind == "diagnostic", "input left over after the top-level expression is rejected through "+kind+", not through a diagnostic: the error then lacks the `pos(line, column) error(code) message` form and the source with its diagnostics is discarded")
 	c15Guards(c)
 	c15LineBreakSet(c)
+	c15Column(c)
 	c15Speculation(c)
 }
 
@@ -1025,4 +1148,53 @@ func c15LineBreakSet(c *Ctx) {
 // decodedRuneAny: like decodedRune but also accepts decodes of a parameter slice.
 func decodedRuneAny(f *ssa.Function) (ch, size ssa.Value) {
 	return decodedRune(f)
+}
+
+// c15Column: the reported column is a byte offset within the line: offset - lineStarts[line], with `line` the very
+// index reported as the line. Counting runes, UTF-16 units or display cells gives a different column on every line
+// that holds a non-ASCII character before the error.
+func c15Column(c *Ctx) {
+	const rule = "C15.column-is-byte-offset"
+	n := 0
+	for _, f := range c.P.ModFuncs {
+		var colSt, lineSt *ssa.Store
+		instrs(f, func(b *ssa.BasicBlock, i int, in ssa.Instruction) {
+			st, ok := in.(*ssa.Store)
+			if !ok {
+				return
+			}
+			fa, ok := st.Addr.(*ssa.FieldAddr)
+			if !ok || typeName(fa.X.Type()) != "Position" {
+				return
+			}
+			switch fieldName(fa) {
+			case "Column":
+				colSt = st
+			case "Line":
+				lineSt = st
+			}
+		})
+		if colSt == nil {
+			continue
+		}
+		if k, ok := constIntArg(colSt.Val); ok && k == 0 {
+			continue // the zero Position of an error return
+		}
+		n++
+		good, why := false, "the column is "+describeValue(colSt.Val)
+		if bo, ok := colSt.Val.(*ssa.BinOp); ok && bo.Op == token.SUB {
+			_, isParam := bo.X.(*ssa.Parameter)
+			if u, ok := bo.Y.(*ssa.UnOp); ok && isParam && u.Op == token.MUL {
+				if ia, ok := u.X.(*ssa.IndexAddr); ok && ia.X.Type().String() == "[]int" {
+					if lineSt != nil && lineSt.Val == ia.Index {
+						good = true
+					} else {
+						why = "the line start subtracted is not the start of the line that is reported"
+					}
+				}
+			}
+		}
+		c.R.Check(rule, c.P.FuncKey(f), c.P.InstrPos(colSt), good, "the column of a position must be the byte offset within its line (offset - lineStarts[line]); "+why)
+	}
+	c.R.Floor(rule, 1)
 }
